@@ -304,7 +304,13 @@ class NodeBase(object):
 
             _new_children.append(_child)
 
+        _old_children = self._children
         self._children = _new_children
+
+        # children that were dropped no longer have this node as a parent
+        for _child in _old_children:
+            if _child not in _new_children:
+                _child._parents.discard(weakref.ref(self))
 
         for _child in self._children:
             _child.add_parent(self)
